@@ -155,6 +155,8 @@ pub fn record_program(tw: &mut TraceWriter, rng: &mut Rng, subject: &str, big: b
 		}
 	}
 	let mut echo: Vec<f64> = Vec::new();
+	let script_scale: Option<f64> = if std::env::var("YV_SCRIPT").as_deref() == Ok("flatafter") { Some(*rng.pick(&[1.0, 1.0e2, 3.0e4, 1.0e6, 1.0e9])) } else { None };
+	let mut last_in = init.clone();
 	for i in 0..steps {
 		// Method::new prescribes the construction value as the first input
 		let x = if i == 0 {
@@ -162,9 +164,22 @@ pub fn record_program(tw: &mut TraceWriter, rng: &mut Rng, subject: &str, big: b
 		} else if !echo.is_empty() && rng.chance(0.08) {
 			let v = *rng.pick(&echo);
 			if v.is_finite() && (v == 0.0 || (v.abs() > 9.6e-7 && v.abs() < 1.0e12)) && !(positive_only(subject) && v <= 0.0) { In::S(v) } else { g.input(kind) }
+		} else if let (Some(sc), 's') = (script_scale, kind) {
+			// YV_SCRIPT=flatafter: volatile at a large scale, then exactly flat for longer than the window, then volatile at a
+			// small scale, ... (the regime in which running sums are left with rounding residue of either sign)
+			let period = 2 * n0.min(60) + 50;
+			let ph = i % period;
+			if ph < 30 {
+				In::S(sc * (0.5 + g.rng.unit()))
+			} else if ph < 30 + n0.min(60) + 8 {
+				last_in.clone()
+			} else {
+				In::S(sc / 4096.0 * (0.5 + g.rng.unit()))
+			}
 		} else {
 			g.input(kind)
 		};
+		last_in = x.clone();
 		echo.clear();
 		for m in shadows.iter_mut() {
 			if let Ok(Out::F(v)) = catch(|| m.next(&x)) {
